@@ -527,6 +527,10 @@ class Project(MessageHandler):
 
         tasks.sort(key=sort_key)
 
+        # A container that holds nothing but dated milestones is complete already: whoever
+        # waits for it must not wait until some unrelated task has been placed
+        self._updateContainerTaskStatus(scIdx)
+
         failedTasks: list[Any] = []
 
         while tasks:
